@@ -1,10 +1,9 @@
 #!/bin/sh
-# runs the quick check of every claimed property sequentially (evidence is rewritten by each run)
+# runs every claimed property's check in one pass (each harness / obligation once) and rewrites all evidence files;
+# usage: tools/run_all.sh [quick|thorough]
 cd "$(dirname "$0")/.."
-: > /tmp/run_all_summary.txt
-for p in $(grep -v '^#' tools/claimed.txt); do
-  start=$(date +%s)
-  ./vcheck $p --tier ${1:-quick} > /tmp/run_all_$p.log 2>&1
-  rc=$?
-  echo "$p exit=$rc wall=$(( $(date +%s) - start ))s $(grep -a "^\[vcheck\] $p:" /tmp/run_all_$p.log | tail -1)" >> /tmp/run_all_summary.txt
-done
+./vcheck ALL --tier ${1:-quick} > /tmp/run_all.log 2>&1
+rc=$?
+grep -a "^\[vcheck\] C[0-9][0-9]:" /tmp/run_all.log
+echo "exit=$rc"
+exit $rc
